@@ -207,10 +207,10 @@ def _templates_in(fd):
     out = []
     for n in ast.walk(fd):
         if isinstance(n, ast.JoinedStr):
-            out.append(''.join(str(v.value) if isinstance(v, ast.Constant) else '{}' for v in n.values))
+            out.append(((getattr(n, 'lineno', 0), getattr(n, 'col_offset', 0)), ''.join(str(v.value) if isinstance(v, ast.Constant) else '{}' for v in n.values)))
         elif isinstance(n, ast.Constant) and isinstance(n.value, str) and len(n.value) > 12 and not isinstance(getattr(n, 'parent', None), ast.JoinedStr):
-            out.append(n.value)
-    return out
+            out.append(((getattr(n, 'lineno', 0), getattr(n, 'col_offset', 0)), n.value))
+    return [t for _, t in sorted(out, key=lambda x: x[0])]      # in source order
 
 
 def rule_xp_messages(cx, rep, port=None):
@@ -224,8 +224,11 @@ def rule_xp_messages(cx, rep, port=None):
         (py.func('rbql_csv', 'CSVWriter.ensure_single_field'), js.func('rbql_csv', 'CSVWriter.mono_join'), 'monocolumn error', 'Monocolumn'),
     ]
     for a, b, label, must in pairs:
-        ta = sorted(t for t in _templates_in(a) if must is None or must in t)
-        tb = sorted(t for t in _templates_in(b) if must is None or must in t)
+        oa = [t for t in _templates_in(a) if must is None or must in t]
+        ob = [t for t in _templates_in(b) if must is None or must in t]
+        ta, tb = sorted(oa), sorted(ob)
+        if ta != tb and ''.join(oa) == ''.join(ob):
+            ta = tb = [''.join(oa)]      # the same text, cut into pieces at different places
         rep.decide(ta == tb and ta, label, b, 'same message templates: {}'.format([t[:50] for t in ta]), '{} messages differ: python {} vs javascript {}'.format(label, ta, tb))
     ca = [v for k, v in py.module_consts('rbql_csv').items() if isinstance(v, str) and 'decode' in v]
     t = [t for t in _templates_in(py.func('rbql_csv', 'CSVRecordIterator.get_row_simple')) if 'decode' in t]
